@@ -1073,6 +1073,29 @@ func registerRegexp(in map[string]intrinsic) {
 		p.unsupported("(*regexp.Regexp).ReplaceAllString on symbolic data")
 		return nil, true
 	}
+	// subject: concrete string, or the class-split representative of a symbolic one
+	subj := func(p *Path, r *regexp.Regexp, v value) (string, bool) {
+		if s, ok := cstr(v); ok {
+			return s, true
+		}
+		if r == nil {
+			return "", false
+		}
+		var bs []*Term
+		switch x := v.(type) {
+		case *SymStr:
+			bs = x.b
+		case []value:
+			bs = sliceBytes(x)
+			if s, ok := mkStr(bs).(string); ok {
+				return s, true
+			}
+		default:
+			return "", false
+		}
+		return p.classSplit(r, bs)
+	}
+	_ = subj
 	in["(*regexp.Regexp).ReplaceAllFunc"] = func(p *Path, caller *frame, _ *ssa.Function, a []value) (value, bool) {
 		r := re(p, a[0])
 		src := a[1].([]value)
@@ -1081,19 +1104,41 @@ func registerRegexp(in map[string]intrinsic) {
 				return out, true
 			}
 		}
-		p.unsupported("(*regexp.Regexp).ReplaceAllFunc for this pattern")
+		if rep, ok := subj(p, r, a[1]); ok && r != nil {
+			// match positions from the representative; the pieces are the real (symbolic) bytes
+			var out []value
+			last := 0
+			for _, m := range r.FindAllStringIndex(rep, -1) {
+				out = append(out, src[last:m[0]]...)
+				piece := make([]value, m[1]-m[0])
+				copy(piece, src[m[0]:m[1]])
+				res := p.call(caller, a[2], []value{piece}, nil).([]value)
+				out = append(out, res...)
+				last = m[1]
+			}
+			out = append(out, src[last:]...)
+			if out == nil {
+				out = []value{}
+			}
+			return out, true
+		}
+		p.unsupported("(*regexp.Regexp).ReplaceAllFunc for this pattern on non-ASCII symbolic data")
 		return nil, true
 	}
 	in["(*regexp.Regexp).FindStringSubmatch"] = func(p *Path, _ *frame, _ *ssa.Function, a []value) (value, bool) {
 		r := re(p, a[0])
-		if s, ok := cstr(a[1]); ok && r != nil {
-			m := r.FindStringSubmatch(s)
+		if rep, ok := subj(p, r, a[1]); ok && r != nil {
+			m := r.FindStringSubmatchIndex(rep)
 			if m == nil {
 				return []value(nil), true
 			}
-			out := make([]value, len(m))
-			for i, x := range m {
-				out[i] = x
+			out := make([]value, len(m)/2)
+			for i := range out {
+				if m[2*i] < 0 {
+					out[i] = ""
+				} else {
+					out[i] = strSlice(a[1], m[2*i], m[2*i+1])
+				}
 			}
 			return out, true
 		}
@@ -1102,7 +1147,7 @@ func registerRegexp(in map[string]intrinsic) {
 	}
 	in["(*regexp.Regexp).FindStringIndex"] = func(p *Path, _ *frame, _ *ssa.Function, a []value) (value, bool) {
 		r := re(p, a[0])
-		if s, ok := cstr(a[1]); ok && r != nil {
+		if s, ok := subj(p, r, a[1]); ok && r != nil {
 			return intSlice(r.FindStringIndex(s)), true
 		}
 		g := 0
@@ -1118,7 +1163,7 @@ func registerRegexp(in map[string]intrinsic) {
 	}
 	in["(*regexp.Regexp).FindStringSubmatchIndex"] = func(p *Path, _ *frame, _ *ssa.Function, a []value) (value, bool) {
 		r := re(p, a[0])
-		if s, ok := cstr(a[1]); ok && r != nil {
+		if s, ok := subj(p, r, a[1]); ok && r != nil {
 			return intSlice(r.FindStringSubmatchIndex(s)), true
 		}
 		g := 0
@@ -1135,7 +1180,7 @@ func registerRegexp(in map[string]intrinsic) {
 	in["(*regexp.Regexp).FindAllStringIndex"] = func(p *Path, _ *frame, _ *ssa.Function, a []value) (value, bool) {
 		r := re(p, a[0])
 		n, okn := cterm(a[2])
-		if s, ok := cstr(a[1]); ok && r != nil && okn {
+		if s, ok := subj(p, r, a[1]); ok && r != nil && okn {
 			return intSlices(r.FindAllStringIndex(s, int(n.Int()))), true
 		}
 		lim := int64(-1)
@@ -1147,7 +1192,7 @@ func registerRegexp(in map[string]intrinsic) {
 	in["(*regexp.Regexp).FindAllStringSubmatchIndex"] = func(p *Path, _ *frame, _ *ssa.Function, a []value) (value, bool) {
 		r := re(p, a[0])
 		n, okn := cterm(a[2])
-		if s, ok := cstr(a[1]); ok && r != nil && okn {
+		if s, ok := subj(p, r, a[1]); ok && r != nil && okn {
 			return intSlices(r.FindAllStringSubmatchIndex(s, int(n.Int()))), true
 		}
 		lim := int64(-1)
@@ -1164,7 +1209,7 @@ func registerRegexp(in map[string]intrinsic) {
 		r := re(p, a[0])
 		n, okn := cterm(a[2])
 		bs := sliceBytes(a[1].([]value))
-		if s, ok := mkStr(bs).(string); ok && r != nil && okn {
+		if s, ok := subj(p, r, a[1]); ok && r != nil && okn {
 			return intSlices(r.FindAllSubmatchIndex([]byte(s), int(n.Int()))), true
 		}
 		lim := int64(-1)
